@@ -6,6 +6,7 @@ CONSTANTS
   Kinds = {"if"}
   GenVars = {"x"}
   SimpleKinds = {"assign", "use", "defg", "defn", "callg"}
+  Shape = "any"
 
 INVARIANT EmitDone
 CHECK_DEADLOCK FALSE
